@@ -61,6 +61,14 @@ def predict(cfg, q=None, tol=1e-7):
     if q.order == 'r1':
         return [], 0
     out = []
+    # evaluation entry points are read-only (C17): calling them first must not change what is checked below (Z20_untwisted IS Z20 on quasi-axisymmetric objects, ...)
+    try:
+        with np.errstate(all='ignore'):
+            q.to_RZ([[0.03, 0.5, 0.2], [0.02, 2.0, 1.1]])
+            q.B_mag(0.03, 0.4, 0.3)
+            q.Bfield_cylindrical(0.02, 0.7)
+    except Exception:
+        pass
     r = residuals(q)
     # closed form of B20: the poloidally averaged O(r^2) part of |B|^2 (w . e_phi) = G (G + iota I), evaluated from the returned geometry
     try:
